@@ -221,7 +221,7 @@ func (h *HashSetOfValue) Equal(thread *Thread, other value.Value) (result bool, 
 	case HashSet:
 		return HashSetOfValueEqualInterface(thread, h, other)
 	default:
-		return false, value.NewCoerceError(value.HashSetClass, other.Class()).ToValue()
+		return false, value.Undefined
 	}
 }
 
